@@ -64,8 +64,8 @@ theorem tab_rewrite_fixpoint (t : FTab) (h : WFTab t) (sel : SampleSel) :
     obtain ⟨a, b, c, d, e⟩ := h
     refine ⟨a, b, c, perm_forall hperm d, ?_⟩
     intro j hj
-    rcases e j hj with e1 | e1
-    · exact Or.inl (perm_forall hperm e1)
+    rcases e j hj with ⟨e0, e1⟩ | e1
+    · exact Or.inl ⟨e0, perm_forall hperm e1⟩
     · exact Or.inr (perm_forall hperm e1)
   have := tab_roundtrip _ h1 sel
   simpa [sortF_idem] using this
